@@ -5,6 +5,10 @@ import (
 	"go/ast"
 	"go/token"
 	"go/types"
+	"os"
+	"path/filepath"
+	"regexp"
+	"sort"
 	"strings"
 
 	"goacheck/an"
@@ -26,7 +30,9 @@ func runC01(c *an.Ctx) string {
 	r018GeneratorLints(c)
 	r023Conversions(c, "R01.9") // a wrong cast type in a conversion template is a compile error (shared with C02/R02.3)
 	r0110NilableKinds(c, "R01.10")
-	aliasFlattening(c, "R01.11") // an unflattened alias leaves validation code written for the primitive on a user type
+	conversionRolesRule(c, "R01.12", "http/codegen/templates")
+	aliasFlattening(c, "R01.11")
+	r0113ReservedLocals(c, "R01.13") // an unflattened alias leaves validation code written for the primitive on a user type
 	return explanationC01
 }
 
@@ -449,4 +455,120 @@ func r0110NilableKinds(c *an.Ctx, rule string) {
 		}
 	}
 	c.Floor(rule, n, 4, "boolean expressions singling out the nilable primitive kinds")
+}
+
+var reTplDecl = regexp.MustCompile(`(?m)^\s*([a-z]\w*(?:\s*,\s*[a-z_]\w*)*)\s*:=`)
+var reTplPkgUse = regexp.MustCompile(`\b([a-z]\w*)\.[A-Z]\w*`)
+
+// r0113ReservedLocals (R01.13): the client request builder is rendered from
+// fixed template text that declares its own locals (p, ok, rd, body, u, req,
+// err, scheme), has the parameters ctx and v and the receiver c, and refers to
+// packages (url, http, io, goahttp); into the same function body it declares one
+// variable per path parameter, named after the design's attribute by a name
+// scope. Every identifier the fixed text declares or qualifies with must be
+// reserved in that scope, or a path parameter of that name shadows it and the
+// generated function does not compile (`p = p.P`).
+func r0113ReservedLocals(c *an.Ctx, rule string) {
+	f := c.MustFunc(rule, "http/codegen", "ServicesData.analyze")
+	if f == nil {
+		return
+	}
+	info := f.Pkg.TypesInfo
+	// the scope whose Unique() result becomes the VarName of the builder's arguments
+	var scopeObj types.Object
+	ast.Inspect(f.Decl.Body, func(nd ast.Node) bool {
+		as, ok := nd.(*ast.AssignStmt)
+		if !ok || len(as.Lhs) != 1 || len(as.Rhs) != 1 {
+			return true
+		}
+		se, ok := as.Lhs[0].(*ast.SelectorExpr)
+		if !ok || se.Sel.Name != "VarName" {
+			return true
+		}
+		call, ok := as.Rhs[0].(*ast.CallExpr)
+		if !ok || !strings.HasSuffix(an.CalleeName(info, call), "NameScope).Unique") {
+			return true
+		}
+		if fs, ok := call.Fun.(*ast.SelectorExpr); ok {
+			if o := an.ObjOf(info, fs.X); o != nil && scopeObj == nil {
+				// the builder's scope is a local created in this function (not the service-wide scope)
+				if _, isField := fs.X.(*ast.SelectorExpr); !isField {
+					scopeObj = o
+				}
+			}
+		}
+		return true
+	})
+	if scopeObj == nil {
+		c.Add(an.Obligation{Rule: rule, Construct: f.Name + "#builder scope", Status: an.LOST, Detail: "no local name scope feeding VarName found"})
+		return
+	}
+	reserved := map[string]bool{}
+	ast.Inspect(f.Decl.Body, func(nd ast.Node) bool {
+		switch x := nd.(type) {
+		case *ast.CallExpr:
+			if fs, ok := x.Fun.(*ast.SelectorExpr); ok && an.ObjOf(info, fs.X) == scopeObj && fs.Sel.Name == "Unique" && len(x.Args) >= 1 {
+				if s, ok := an.ConstString(info, x.Args[0]); ok {
+					reserved[s] = true
+				}
+			}
+		case *ast.RangeStmt:
+			// for _, n := range []string{"a","b"} { s.Unique(n) }
+			cl, ok := an.Unparen(x.X).(*ast.CompositeLit)
+			if !ok {
+				return true
+			}
+			uses := false
+			ast.Inspect(x.Body, func(m ast.Node) bool {
+				if call, ok := m.(*ast.CallExpr); ok {
+					if fs, ok := call.Fun.(*ast.SelectorExpr); ok && an.ObjOf(info, fs.X) == scopeObj && fs.Sel.Name == "Unique" && len(call.Args) >= 1 && an.ObjOf(info, call.Args[0]) == an.ObjOf(info, x.Value) {
+						uses = true
+					}
+				}
+				return true
+			})
+			if uses {
+				for _, e := range cl.Elts {
+					if s, ok := an.ConstString(info, e); ok {
+						reserved[s] = true
+					}
+				}
+			}
+		}
+		return true
+	})
+	declared := map[string]bool{"c": true, "ctx": true, "v": true}
+	for _, rel := range []string{"http/codegen/templates/request_init.go.tpl"} {
+		b, err := os.ReadFile(filepath.Join(c.Repo, rel))
+		if err != nil {
+			c.Add(an.Obligation{Rule: rule, Construct: rel, Status: an.LOST, Detail: err.Error()})
+			return
+		}
+		flat := flattenActions(string(b))
+		for _, m := range reTplDecl.FindAllStringSubmatch(flat, -1) {
+			for _, n := range strings.Split(m[1], ",") {
+				if n = strings.TrimSpace(n); n != "_" && n != "" {
+					declared[n] = true
+				}
+			}
+		}
+		for _, m := range regexp.MustCompile(`(?m)^\s*([a-z]\w*) [\w.*]+\s*$`).FindAllStringSubmatch(flat, -1) {
+			declared[m[1]] = true // var ( name type )
+		}
+		for _, m := range reTplPkgUse.FindAllStringSubmatch(flat, -1) {
+			if !declared[m[1]] && m[1] != "p" && m[1] != "rd" {
+				declared[m[1]] = true // package qualifier (or receiver field access): must not be shadowed
+			}
+		}
+	}
+	delete(declared, "return")
+	var missing []string
+	for n := range declared {
+		if !reserved[n] {
+			missing = append(missing, n)
+		}
+	}
+	sort.Strings(missing)
+	c.Check(len(missing) == 0, rule, f.Name+"#builder scope", f.Decl.Pos(), fmt.Sprintf("the %d identifiers the request builder's fixed text declares or qualifies with are all reserved in the scope that names its path-parameter variables", len(declared)),
+		"the request builder's fixed text declares or uses "+strings.Join(missing, ", ")+" but the scope that names its path-parameter variables does not reserve them: a path parameter with one of these names shadows it and the generated client does not compile")
 }
